@@ -251,7 +251,16 @@ def c19_relabel_case(case):
             sid = same_frame.index(n) + 1
         g.nodes[n]["seg_id"] = sid
         seg[t, 0, i] = sid
-    if "extra" in mode:
+    if "xother@" in mode:
+        # a detection that is not in the solution and carries a label that a solution node of
+        # ANOTHER frame uses (labels are only unique within a frame)
+        tx = int(mode.split("@")[1])
+        here = {int(v) for v in seg[tx].ravel() if v}
+        elsewhere = sorted({int(v) for t in range(T) if t != tx for v in seg[t].ravel() if v} - here)
+        if not elsewhere:
+            return []
+        seg[tx, 0, Wd - 1] = elsewhere[0]
+    elif "extra" in mode:
         # a detection that is not in the solution, in frame 0, label not used in that frame
         seg[0, 0, Wd - 1] = 7
     try:
@@ -286,7 +295,7 @@ def c19_relabel_cases(tier):
     q = tier == "quick"
     for seed in worlds.forests(4 if q else 5, 3, 1):
         sj = worlds.seed_to_json(seed)
-        for mode in ("plain", "reuse", "extra", "reuse+extra"):
+        for mode in ("plain", "reuse", "extra", "reuse+extra", "xother@0", "xother@1", "xother@2", "reuse+xother@0", "reuse+xother@1", "reuse+xother@2"):
             yield ("relabel", sj, mode)
     # several divisions in one graph: all 5-node forests with two divisions (quick; part of the
     # full enumeration in the thorough tier), the nested and the side-by-side hand seeds
@@ -309,6 +318,21 @@ def c19_relabel_cases(tier):
 
 def c18_points_case(case):
     from funtracks.candidate_graph import compute_graph_from_points_list
+    if case[0] == "points2":
+        # two calls in a row on the caller's same (float) array: different distance / scale
+        _k, pts, maxd_a, scale_a, maxd_b, scale_b, ndim = case
+        arr = np.array([[t] + [0] * (ndim - 2) + [x] for t, x in pts], dtype=float).reshape((-1, ndim))
+        out = []
+        for maxd, scale in ((maxd_a, scale_a), (maxd_b, scale_b)):
+            sc = ([1.0] + [2.0] * (ndim - 2) + [0.5]) if scale else None
+            try:
+                g = compute_graph_from_points_list(arr, maxd, scale=sc)
+            except Exception as e:  # noqa: BLE001
+                return out + [vio("C18", "raises", f"{type(e).__name__}: {e}", case, "points-second-call", _gap_class(pts))]
+            out += _c18_points_judge(g, pts, maxd, scale, sc, ndim, case, "points-second-call")
+            if out:
+                return out
+        return out
     kind, pts, maxd, scale, ndim = case
     # pts: tuple of (t, x) lattice points; embed into (t, y, x) or (t, z, y, x)
     arr = []
@@ -325,15 +349,19 @@ def c18_points_case(case):
         if len(pts) == 0:
             return []
         return [vio("C18", "raises", f"{type(e).__name__}: {e}", case, "points", _gap_class(pts))]
+    return _c18_points_judge(g, pts, maxd, scale, sc, ndim, case, "points")
+
+
+def _c18_points_judge(g, pts, maxd, scale, sc, ndim, case, check):
     out = []
     if sorted(g.nodes) != list(range(len(pts))):
-        out.append(vio("C18", "nodes", f"nodes {sorted(g.nodes)} for {len(pts)} points", case, "points"))
+        out.append(vio("C18", "nodes", f"nodes {sorted(g.nodes)} for {len(pts)} points", case, check))
         return out
     xs = [x * (0.5 if scale else 1.0) for _t, x in pts]
     for i, (t, x) in enumerate(pts):
         d = g.nodes[i]
         if d["time"] != t or not _feq([float(v) for v in d["pos"]], [0.0] * (ndim - 2) + [xs[i]]):
-            out.append(vio("C18", "node-attrs", f"node {i}: {d} for point {(t, x)} scale {sc}", case, "points"))
+            out.append(vio("C18", "node-attrs", f"node {i}: {d} for point {(t, x)} scale {sc}", case, check))
             return out
     exp = set()
     for i, (ti, _xi) in enumerate(pts):
@@ -344,7 +372,7 @@ def c18_points_case(case):
     if got != exp:
         extra, missing = sorted(got - exp), sorted(exp - got)
         cl = "extra" if extra else "missing"
-        out.append(vio("C18", f"edges-{cl}", f"points {pts} maxd {maxd}: extra {extra} missing {missing}", case, "points", _gap_class(pts)))
+        out.append(vio("C18", f"edges-{cl}", f"points {pts} maxd {maxd}: extra {extra} missing {missing}", case, check, _gap_class(pts)))
     return out
 
 
@@ -373,6 +401,14 @@ def c18_points_cases(tier):
                 yield ("points", pts, 1.0, True, 3)
                 yield ("points", pts, 1.0, False, 4)
                 yield ("points", pts, 1.0, True, 4)
+    # the caller's array used for two calls in a row (every ordered pair of settings)
+    lattice2 = [(t, x) for t in range(3) for x in range(3)]
+    settings = [(1.0, False), (1.5, False), (1.0, True), (2.0, True)]
+    for n in range(1, 4 if q else 5):
+        for pts in itertools.combinations_with_replacement(lattice2, n):
+            for (ma, sa) in settings:
+                for (mb, sb) in settings:
+                    yield ("points2", pts, ma, sa, mb, sb, 3)
     # dense frames: 9 to 12 points on a 4 x 3 lattice (ids up to 11, three points per frame),
     # listed in time order and in reversed order
     lattice = [(t, x) for t in range(4) for x in range(3)]
@@ -479,6 +515,8 @@ def c18_seg_cases(tier):
 
 def c13_case(case):
     from funtracks.import_export._import_segmentation import relabel_segmentation
+    if case[0] == "builder2":
+        return c13_builder_case(case)
     kind, shape, flat, assign = case[:4]  # assign: tuple of ((t, label), node_id)
     seg = np.array(flat, dtype=np.int64).reshape(shape)
     if len(case) > 4 and case[4] == "u8":
@@ -508,36 +546,67 @@ def c13_case(case):
             out.append(vio("C13", "graph-not-shifted", f"graph nodes {sorted(g.nodes)} expected {sorted(n + off for n in node_ids)}", case, "relabel_segmentation"))
         return out
     # through tracks_from_df
-    import pandas as pd
     from funtracks.import_export.csv._import import tracks_from_df
     if not assign:
         return []
+    df = _c13_table(seg, assign)
+    orig = seg.copy()
+    try:
+        tr = tracks_from_df(df, segmentation=seg.copy(), node_name_map={"time": "time", "pos": ["y", "x"], "id": "id", "parent_id": "parent_id", "seg_id": "seg_id"})
+    except Exception as e:  # noqa: BLE001
+        return [vio("C13", "raises", f"{type(e).__name__}: {e}", case, "tracks_from_df", _c13_class(assign, orig))]
+    return _c13_judge(tr, orig, assign, case, "tracks_from_df")
+
+
+def _c13_table(seg, assign):
+    import pandas as pd
     rows = []
     for (t, lab), nid in assign:
         idx = np.nonzero(seg[t] == lab)
         # position = one pixel of the mask (the importer samples the label at the position;
         # a centroid may fall outside a non-convex mask)
         rows.append({"time": t, "y": float(idx[0][0]), "x": float(idx[1][0]), "id": nid, "parent_id": -1, "seg_id": lab})
-    df = pd.DataFrame(rows)
-    orig = seg.copy()
-    try:
-        tr = tracks_from_df(df, segmentation=seg.copy(), node_name_map={"time": "time", "pos": ["y", "x"], "id": "id", "parent_id": "parent_id", "seg_id": "seg_id"})
-    except Exception as e:  # noqa: BLE001
-        return [vio("C13", "raises", f"{type(e).__name__}: {e}", case, "tracks_from_df", _c13_class(assign, orig))]
+    return pd.DataFrame(rows)
+
+
+def c13_builder_case(case):
+    """one CSVTracksBuilder instance used for two data sets, one after the other
+    (prepare + build each): each result must be the relabelling of *its* source array"""
+    from funtracks.import_export import CSVTracksBuilder
+    _k, shape, flat_a, assign_a, flat_b, assign_b = case
+    builder = CSVTracksBuilder()
+    out = []
+    for which, flat, assign in (("first", flat_a, assign_a), ("second", flat_b, assign_b)):
+        seg = np.array(flat, dtype=np.int64).reshape(shape)
+        df = _c13_table(seg, assign)
+        orig = seg.copy()
+        try:
+            builder.prepare(df, seg)
+            tr = builder.build(df, seg)
+        except Exception as e:  # noqa: BLE001
+            return [vio("C13", "raises", f"{which} data set of one builder: {type(e).__name__}: {e}", case, "builder-reused", which)]
+        out = _c13_judge(tr, orig, assign, case, "builder-reused", which)
+        if out:
+            return out
+    return out
+
+
+def _c13_judge(tr, orig, assign, case, check, prefix=""):
+    out = []
     node_ids = [nid for _, nid in assign]
     off = 1 if 0 in node_ids else 0
     exp = np.zeros_like(orig)
     for (t, lab), nid in assign:
         exp[t][orig[t] == lab] = nid + off
     if not np.array_equal(np.asarray(tr.segmentation).astype(np.int64), exp):
-        out.append(vio("C13", "pixels", f"seg {orig.tolist()} assign {assign}: got {np.asarray(tr.segmentation).tolist()} expected {exp.tolist()}", case, "tracks_from_df",
-                       _c13_class(assign, orig)))
+        out.append(vio("C13", "pixels", f"seg {orig.tolist()} assign {assign}: got {np.asarray(tr.segmentation).tolist()} expected {exp.tolist()}", case, check,
+                       prefix + _c13_class(assign, orig)))
     if sorted(int(n) for n in tr.graph.nodes) != sorted(n + off for n in node_ids):
-        out.append(vio("C13", "graph-not-shifted", f"graph nodes {sorted(tr.graph.nodes)} expected {sorted(n + off for n in node_ids)}", case, "tracks_from_df"))
+        out.append(vio("C13", "graph-not-shifted", f"graph nodes {sorted(tr.graph.nodes)} expected {sorted(n + off for n in node_ids)}", case, check, prefix))
     else:
         for (t, lab), nid in assign:
             if int(tr.get_time(nid + off)) != t:
-                out.append(vio("C13", "node-time", f"node {nid + off} time {tr.get_time(nid + off)} expected {t}", case, "tracks_from_df"))
+                out.append(vio("C13", "node-time", f"node {nid + off} time {tr.get_time(nid + off)} expected {t}", case, check, prefix))
                 break
     return out
 
@@ -578,6 +647,21 @@ def c13_cases(tier):
                 for perm in itertools.permutations((100000, 100001, 100002), r):
                     yield ("direct", (2, 1, 2), flat, tuple(zip(sub, perm)))
                     yield ("df", (2, 1, 2), flat, tuple(zip(sub, perm)))
+    # one builder object, two data sets: every ordered pair of a family of small data sets
+    shape = (2, 1, 3)
+    sets = []
+    for flat in itertools.product((0, 1, 2), repeat=6):
+        if flat[1] or flat[4] or not (flat[0] and flat[3]) or (q and flat[2]):
+            continue  # two separate one-pixel objects per frame at most, one always present
+        seg = np.array(flat).reshape(shape)
+        present = [(t, int(lab)) for t in range(2) for lab in np.unique(seg[t]) if lab]
+        for perm in itertools.permutations((1, 2, 3, 4), len(present)):
+            if q and (perm != tuple(sorted(perm)) and perm != tuple(sorted(perm, reverse=True))):
+                continue
+            sets.append((flat, tuple(zip(present, perm))))
+    for fa, aa in sets:
+        for fb, ab in sets:
+            yield ("builder2", shape, fa, aa, fb, ab)
     shape = (2, 1, 3)
     labels = (0, 1, 2, 3) if not q else (0, 1, 2)
     ids = (0, 1, 2, 3, 4) if not q else (0, 1, 2, 3)
